@@ -48,6 +48,11 @@ fn geometry(edge: usize, n_points: u8, ends: Option<(usize, usize)>) -> Vec<(f32
     let mut pts: Vec<(f32, f32)> = (0..n)
         .map(|i| (-100.0 + edge as f32 + i as f32 * 0.0625, 30.0 + i as f32 * 0.125 + edge as f32 * 0.001953125))
         .collect();
+    if ends.is_none() && n >= 3 && edge % 5 == 2 {
+        // a closed geometry (a loop that returns to its first point): stored geometries are
+        // reproduced whatever their shape
+        pts[n - 1] = pts[0];
+    }
     if let Some((s, d)) = ends {
         let vp = |v: usize| (-120.0 + v as f32 * 0.03125, 10.0 + v as f32 * 0.0625);
         pts[0] = vp(s);
